@@ -14,6 +14,8 @@ SimOps ==
        /\ LockReq(Pick(Keys), Pick(Lids), Pick(Counts), Pick(Rcounts), Pick(Exps), Pick(Classes), Pick(Units), Pick(Vals))
     \/ /\ turn \in {"unlock"}
        /\ UnlockReq(Pick(Keys), Pick(Lids), Pick(Rcounts))
+    \/ /\ turn \in {"update", "update2"} /\ UpdExps # {}
+       /\ UpdateReq(Pick(Keys), Pick(Lids), Pick(UpdExps))
     \/ /\ turn \in {"tick", "tick2"}
        /\ Tick
     \/ /\ turn = "rewrite"
